@@ -255,8 +255,14 @@ class World:
             from . import trace
             mon = trace.setup(self.mods)
             mon.activate(self.sched)
+        self.blocked_snapshot = []
         try:
             reason = self.sched.run(wall_timeout)
+            # who is still inside an API call now that nothing can happen any more?  (must be looked at
+            # before the task threads are unwound: unwinding clears the per-task op markers)
+            for t in self.sched.tasks:
+                if t.op is not None and t.state != "done" and (t.proc is None or t.proc.alive):
+                    self.blocked_snapshot.append((t.op, t.blocked_label, t.proc.name if t.proc else None))
         finally:
             try:
                 if mon is not None:
